@@ -16,8 +16,8 @@ use std::collections::HashMap;
 pub struct C01;
 
 pub const SEP: &str = "\u{1}";
-const BATCH: usize = 16;
-const BATCHES_PER_UNIT: usize = 24;
+const BATCH: usize = 32;
+const BATCHES_PER_UNIT: usize = 12;
 
 #[derive(Clone)]
 pub struct Item {
@@ -97,6 +97,22 @@ pub fn load_goldens(name: &str) -> HashMap<String, (String, String)> {
     m
 }
 
+pub fn load_goldens_for(name: &str, items: &[Item]) -> HashMap<String, (String, String)> {
+    let want: std::collections::HashSet<&str> = items.iter().map(|i| i.id.as_str()).collect();
+    let mut m = HashMap::new();
+    if let Ok(text) = std::fs::read_to_string(golden_path(name)) {
+        for line in text.lines() {
+            let mut it = line.splitn(3, '\t');
+            if let (Some(id), Some(h), Some(exp)) = (it.next(), it.next(), it.next())
+                && want.contains(id)
+            {
+                m.insert(id.to_string(), (h.to_string(), unescape(exp)));
+            }
+        }
+    }
+    m
+}
+
 pub fn escape(s: &str) -> String {
     s.replace('\\', "\\\\").replace('\n', "\\n").replace('\t', "\\t").replace('\r', "\\r")
 }
@@ -131,7 +147,7 @@ fn limits() -> Limits {
 /// output per item.
 fn run_batch(items: &[Item]) -> Option<Vec<String>> {
     let prog = batch_program(items);
-    let cfg = RunConfig { max_steps: 3_000_000, ..Default::default() };
+    let cfg = RunConfig { max_steps: 3_000_000, gc_threshold: Some(0), ..Default::default() }; // collector off: GC transparency is C02's subject
     match isolate::run(&limits(), move || {
         let o = runner::run_fresh(&prog, &cfg);
         format!("{}\u{2}{}", o.kind, o.value)
@@ -151,7 +167,7 @@ fn run_batch(items: &[Item]) -> Option<Vec<String>> {
 /// Run one item alone; always yields a description of what happened.
 fn run_single(item: &Item) -> String {
     let prog = batch_program(std::slice::from_ref(item));
-    let cfg = RunConfig { max_steps: 3_000_000, ..Default::default() };
+    let cfg = RunConfig { max_steps: 3_000_000, gc_threshold: Some(0), ..Default::default() }; // collector off: GC transparency is C02's subject
     match isolate::run(&limits(), move || {
         let o = runner::run_fresh(&prog, &cfg);
         format!("{}\u{2}{}\u{2}{}", o.kind, o.value, o.error_class)
@@ -178,14 +194,57 @@ fn run_single(item: &Item) -> String {
     }
 }
 
+fn batch_inproc(items: &[Item]) -> Option<Vec<String>> {
+    let prog = batch_program(items);
+    let cfg = RunConfig { max_steps: 3_000_000, gc_threshold: Some(0), ..Default::default() }; // collector off: GC transparency is C02's subject
+    let o = runner::run_fresh(&prog, &cfg);
+    if o.kind != "value" {
+        return None;
+    }
+    let parts: Vec<String> = o.value.split(SEP).map(|s| s.to_string()).collect();
+    if parts.len() == items.len() { Some(parts) } else { None }
+}
+
 pub fn judge_items(r: &mut UnitResult, items: &[Item], goldens: &HashMap<String, (String, String)>, prefix: &str) {
-    for chunk in items.chunks(BATCH) {
-        let outs: Vec<String> = match run_batch(chunk) {
-            Some(o) => o,
-            None => {
-                r.stat("batches_rerun_singly", 1);
-                chunk.iter().map(run_single).collect()
+    // One forked child evaluates all batches of the unit and streams the results back; a
+    // batch it did not deliver (child died, step limit, top-level error) is re-run in its
+    // own child and, if that fails too, cell by cell. (Forking per batch is needlessly slow.)
+    let chunks: Vec<&[Item]> = items.chunks(BATCH).collect();
+    let mut delivered: HashMap<usize, Vec<String>> = HashMap::new();
+    let lim = Limits { wall: std::time::Duration::from_secs(180), address_space: 3 << 30, stack: 0 };
+    let exit = isolate::run(&lim, || {
+        for (bi, chunk) in chunks.iter().enumerate() {
+            match batch_inproc(chunk) {
+                Some(outs) => isolate::emit(&format!("{}\u{2}{}\u{3}", bi, outs.join(SEP))),
+                None => isolate::emit(&format!("{}\u{2}\u{4}FAIL\u{3}", bi)),
             }
+        }
+        String::new()
+    });
+    let text = match exit {
+        Exit::Ok(t) | Exit::Signal(_, t) | Exit::Status(_, t) | Exit::Timeout(t) => t,
+    };
+    for rec in text.split('\u{3}') {
+        if let Some((bi, body)) = rec.split_once('\u{2}')
+            && let Ok(bi) = bi.parse::<usize>()
+            && body != "\u{4}FAIL"
+        {
+            let parts: Vec<String> = body.split(SEP).map(|s| s.to_string()).collect();
+            if bi < chunks.len() && parts.len() == chunks[bi].len() {
+                delivered.insert(bi, parts);
+            }
+        }
+    }
+    for (bi, chunk) in chunks.iter().enumerate() {
+        let outs: Vec<String> = match delivered.remove(&bi) {
+            Some(o) => o,
+            None => match run_batch(chunk) {
+                Some(o) => o,
+                None => {
+                    r.stat("batches_rerun_singly", 1);
+                    chunk.iter().map(run_single).collect()
+                }
+            },
         };
         for (item, got) in chunk.iter().zip(outs.iter()) {
             r.evaluations += 1;
@@ -211,7 +270,7 @@ pub fn judge_items(r: &mut UnitResult, items: &[Item], goldens: &HashMap<String,
                 r.note(format!("{}: wall-clock watchdog", item.id));
                 continue;
             }
-            if got != want {
+            if got != want && !(tolerant(&item.id) && approx_equal(got, want)) {
                 r.violate(
                     format!("{}|{}|={}", prefix, item.id, hash_hex(got)),
                     format!("{} :: {}  => tsrun {:?}, reference {:?}", item.id, truncate(&item.human, 200), truncate(got, 160), truncate(want, 160)),
@@ -222,6 +281,49 @@ pub fn judge_items(r: &mut UnitResult, items: &[Item], goldens: &HashMap<String,
             r.stat(&format!("cells_{}", fam), 1);
         }
     }
+}
+
+/// Families whose results ECMAScript leaves implementation-approximated (`**`,
+/// Math.pow): numbers inside the printed value may differ in the last bits.
+fn tolerant(id: &str) -> bool {
+    id.starts_with("bin.exp#") || id.starts_with("asg.exp#") || id.starts_with("math.pow#") || id.starts_with("math.hypot#")
+}
+
+fn num_tokens(s: &str) -> (String, Vec<f64>) {
+    // split a printed value into its non-numeric skeleton and the numbers in it
+    let b: Vec<char> = s.chars().collect();
+    let mut skel = String::new();
+    let mut nums = Vec::new();
+    let mut i = 0;
+    while i < b.len() {
+        let c = b[i];
+        let starts = c.is_ascii_digit() || (c == '-' && i + 1 < b.len() && b[i + 1].is_ascii_digit());
+        if starts {
+            let st = i;
+            i += 1;
+            while i < b.len() && (b[i].is_ascii_digit() || b[i] == '.' || b[i] == 'e' || ((b[i] == '+' || b[i] == '-') && b[i - 1] == 'e')) {
+                i += 1;
+            }
+            let t: String = b[st..i].iter().collect();
+            match t.parse::<f64>() {
+                Ok(v) => {
+                    nums.push(v);
+                    skel.push('#');
+                }
+                Err(_) => skel.push_str(&t),
+            }
+        } else {
+            skel.push(c);
+            i += 1;
+        }
+    }
+    (skel, nums)
+}
+
+fn approx_equal(a: &str, b: &str) -> bool {
+    let (sa, na) = num_tokens(a);
+    let (sb, nb) = num_tokens(b);
+    sa == sb && na.len() == nb.len() && na.iter().zip(nb.iter()).all(|(x, y)| x == y || (x - y).abs() <= 4e-15 * x.abs().max(y.abs()))
 }
 
 impl Check for C01 {
@@ -236,16 +338,19 @@ impl Check for C01 {
         let per = BATCH * BATCHES_PER_UNIT;
         let na = items.len().div_ceil(per);
         if idx < na {
-            let goldens = load_goldens("C01A.tsv");
+            let lo = idx * per;
+            let hi = (lo + per).min(items.len());
+            // keep only this unit's slice in memory: the batches run in forked children
+            let slice: Vec<Item> = items[lo..hi].to_vec();
+            drop(items);
+            let goldens = load_goldens_for("C01A.tsv", &slice);
             if goldens.is_empty() {
                 r.inconclusive += 1;
                 r.note("golden file ref/golden/C01A.tsv missing".into());
                 return r;
             }
-            let lo = idx * per;
-            let hi = (lo + per).min(items.len());
-            judge_items(&mut r, &items[lo..hi], &goldens, "cell");
-            if let Some(it) = items.get(lo) {
+            judge_items(&mut r, &slice, &goldens, "cell");
+            if let Some(it) = slice.first() {
                 r.sample(json!({"cell": it.id, "program": it.human}));
             }
         } else {
